@@ -7,11 +7,13 @@ import (
 
 	"verifharness/internal/mbox"
 	"verifharness/internal/posrep"
+	"verifharness/internal/urlh"
 )
 
 var cmds = map[string]func([]string) int{
 	"mbox":   mbox.Main,
 	"posrep": posrep.Main,
+	"url":    urlh.Main,
 }
 
 func main() {
